@@ -272,6 +272,14 @@ def gen_pairs(ctx, rng, count, ref=None):
             opts["patch"] = "1"
             opts["drift"] = ["10", "3", "25"][(i // 16) % 3]
             kind = "drift-patch" if kind not in ("loopedge", "rollover", "monthedge") else kind
+        if "drift" in opts:
+            # the manifest is laid out for now - drift: keep the generator out of the young-stream region (stream age
+            # as of THAT instant below the depth), which is excluded here as it is without drift, and out of the
+            # classes whose clock phase is the point of the case
+            if kind in ("rollover", "monthedge", "loopedge"):
+                opts.pop("drift")
+            else:
+                t1 = t1 + datetime.timedelta(seconds=int(opts["drift"]) + 3)
         q = "&".join(f"{k}={v}" for k, v in opts.items() if not (k == "start" and v == "year" and i % 2 == 0))
         # (`start=year` is the server default: every other such case leaves it to the default)
         out.append((stream, f"/dash/live/{stream}/{man}?{q}", t1, t1 + delta, kind, opts, defaults))
